@@ -313,3 +313,123 @@ contract(
     inline=SDP_INLINE,
     native_setup=uuid_native_setup,
 )
+
+
+# -- fields -> bytes -> fields (and bytes again) for every scalar element type, all values / sizes -----------------
+SDP_RT_INLINE = ['DataElement.*', 'DataElementParser.*'] + UUID_INLINE
+SIZE_INDEX = {1: 0, 2: 1, 4: 2, 8: 3, 16: 4}
+
+
+def sdp_reparse(e, b):
+    """parse b with the real parser (both entry points); the result equals e, consumed everything, re-serialises to b"""
+    p = sdp.DataElementParser(b)
+    g = p.parse_next()
+    assert p.offset == len(b) and p.depth == 0
+    assert g.type == e.type and g.value_size == e.value_size
+    assert g == e
+    assert g._bytes == b and bytes(g) == b
+    end, h = DE.parse_from_bytes(b, 0)
+    assert end == len(b) and h == e
+    return g
+
+
+def lemma_sdp_nil():
+    e = DE.nil()
+    b = bytes(e)
+    assert b == bytes([0])
+    g = sdp_reparse(e, b)
+    assert g.value is None
+
+
+lemma('sdp_nil_roundtrip', lemma_sdp_nil, prop='C18', params={}, inline=SDP_RT_INLINE)
+
+
+def lemma_sdp_uint(value, n):
+    e = DE.unsigned_integer(value, n)
+    b = bytes(e)
+    assert len(b) == 1 + n and b[0] == S.UINT * 8 + SIZE_INDEX[n] and S.be_uint(b, 1, n) == value
+    g = sdp_reparse(e, b)
+    assert g.value == value
+
+
+def lemma_sdp_sint(value, n):
+    e = DE.signed_integer(value, n)
+    b = bytes(e)
+    assert len(b) == 1 + n and b[0] == S.SINT * 8 + SIZE_INDEX[n] and S.be_sint(b, 1, n) == value
+    g = sdp_reparse(e, b)
+    assert g.value == value
+
+
+for _n in (1, 2, 4, 8):
+    lemma(f'sdp_uint{8 * _n}_roundtrip', lemma_sdp_uint, prop='C18', params=dict(value=IntRange(0, 2 ** (8 * _n) - 1), n=OneOf(_n)), inline=SDP_RT_INLINE)
+    lemma(f'sdp_sint{8 * _n}_roundtrip', lemma_sdp_sint, prop='C18', params=dict(value=IntRange(-(2 ** (8 * _n - 1)), 2 ** (8 * _n - 1) - 1), n=OneOf(_n)),
+          inline=SDP_RT_INLINE)
+
+
+def lemma_sdp_bool(value):
+    e = DE.boolean(value)
+    b = bytes(e)
+    assert b == bytes([S.BOOL * 8, 1 if value else 0])
+    g = sdp_reparse(e, b)
+    assert g.value == value
+
+
+lemma('sdp_boolean_roundtrip', lemma_sdp_bool, prop='C18', params=dict(value=Bool), inline=SDP_RT_INLINE)
+
+
+def lemma_sdp_text(value):
+    e = DE.text_string(value)
+    b = bytes(e)
+    # size index 5 / 6 / 7 and 1 / 2 / 4 big-endian size bytes: the shortest form that holds len(value)
+    assert b == S.var_header(S.TEXT, len(value)) + value
+    g = sdp_reparse(e, b)
+    assert g.value == value
+
+
+lemma('sdp_text_string_roundtrip', lemma_sdp_text, prop='C18', params=dict(value=Bytes), requires=lambda value: len(value) <= 0xFFFFFFFF, inline=SDP_RT_INLINE)
+
+
+def lemma_sdp_uuid(ub):
+    u = core.UUID.from_bytes(ub)
+    e = DE.uuid(u)
+    b = bytes(e)
+    n = len(ub)
+    assert len(b) == 1 + n and b[0] == S.UUID * 8 + SIZE_INDEX[n] and is_reversed(ub, b, 1 + n, n)  # big-endian on the wire
+    p = sdp.DataElementParser(b)
+    g = p.parse_next()
+    assert p.offset == len(b) and p.depth == 0
+    assert g.type == DE.UUID and g.value == u and g.value.to_bytes() == ub  # same value, same width
+    assert g == e
+    assert g._bytes == b and bytes(g) == b
+    assert bytes(DE.uuid(g.value)) == b  # also without the cache
+
+
+for _n in (2, 4, 16):
+    lemma(f'sdp_uuid{8 * _n}_roundtrip', lemma_sdp_uuid, prop='C18', params=dict(ub=BytesN(_n)), ghost=UUID_WORLD, requires=lambda ghost: uuid_world_ok(ghost),
+          uses=UUID_USES, inline=SDP_RT_INLINE, native_setup=uuid_native_setup)
+
+
+def lemma_sdp_nested(t1, t2, a, b, c, d, u):
+    # nesting depth 2, lists of length 3 and 2 (+ the empty list), every scalar leaf symbolic
+    inner = DE(t2, [DE.unsigned_integer_16(b), DE.text_string(c)])
+    e = DE(t1, [DE.signed_integer_8(a), inner, DE.boolean(d), DE(t2, []), DE.unsigned_integer_32(u)])
+    bs = bytes(e)
+    p = sdp.DataElementParser(bs)
+    g = p.parse_next()
+    assert p.offset == len(bs) and p.depth == 0
+    assert g == e
+    assert bytes(g) == bs
+    assert g.value[1].value[1].value == c and g.value[1]._bytes == bytes(inner)
+
+
+lemma(
+    'sdp_nested_roundtrip_bounded',
+    lemma_sdp_nested,
+    prop='C18',
+    params=dict(t1=OneOf(DE.SEQUENCE, DE.ALTERNATIVE), t2=OneOf(DE.SEQUENCE, DE.ALTERNATIVE), a=IntRange(-128, 127), b=IntRange(0, 0xFFFF), c=BytesN(3), d=Bool,
+                u=IntRange(0, 0xFFFFFFFF)),
+    inline=SDP_RT_INLINE,
+    bounded='nesting depth 2, lists of length 5 / 2 / 0',
+    note='bounded: element trees of nesting depth 2 with lists of length 5 / 2 / 0 (recursion over arbitrary trees is outside the SMT encoding); '
+         'the unbounded part is the pair of contracts parse_next / _list_from_bytes (offsets, depth counter, consumed slice)',
+)
